@@ -35,9 +35,12 @@ VARIABLES epSent,     \* [D -> SUBSET Nat]  endpoint IDs the proxy has processed
           shown,      \* [D -> SUBSET Nat]  endpoint IDs shown as acknowledged to the sender of d (ghost)
           pending,    \* set of [d, w, tries, age]: reliable proxy packets awaiting an ack
           done,       \* set of [d, w, how]: completed futures, how \in {"acked","failed"}
+          quiet,      \* clock units since the circuit last carried a datagram (capped at Interval): the
+                      \* resend clock of a new proxy packet starts at ITS send time, however quiet the
+                      \* circuit was before
           out         \* datagrams the last event handed to the transport
 
-vars == <<epSent, epRel, epDropped, inj, base, fwdMap, delivered, ackedWire, shown, pending, done, out>>
+vars == <<epSent, epRel, epDropped, inj, base, fwdMap, delivered, ackedWire, shown, pending, done, quiet, out>>
 
 Max(S) == IF S = {} THEN 0 ELSE CHOOSE x \in S : \A y \in S : y <= x
 Range(s) == {s[i] : i \in DOMAIN s}
@@ -71,7 +74,7 @@ Rec(d, id, name, rel, resent, acks, pa) ==
 Init == /\ epSent = [d \in D |-> {}] /\ epRel = [d \in D |-> {}] /\ epDropped = [d \in D |-> {}]
         /\ inj = [d \in D |-> {}] /\ base = [d \in D |-> 0] /\ fwdMap = [d \in D |-> {}]
         /\ delivered = [d \in D |-> {}] /\ ackedWire = [d \in D |-> {}] /\ shown = [d \in D |-> {}]
-        /\ pending = {} /\ done = {} /\ out = <<>>
+        /\ pending = {} /\ done = {} /\ quiet = 0 /\ out = <<>>
 
 Frontier(d) == Max(epSent[d])
 
@@ -146,6 +149,7 @@ EndpointSend(d, k, rel, kind, A1, A2, disp) ==
                                       ![r] = @ \cup Range(T1)]
             /\ out' = copyOut \o ackSender \o passOn
             /\ UNCHANGED fwdMap
+    /\ quiet' = IF out' = <<>> THEN quiet ELSE 0
 
 \* StartPingCheck carries the sender's oldest unacknowledged packet ID; the proxy rewrites it into
 \* wire numbering and lowers it to its own oldest unacknowledged injection in that direction
@@ -165,6 +169,7 @@ StartPing(d, k, oldest) ==
     /\ fwdMap' = [fwdMap EXCEPT ![d] = @ \cup {<<k, w>>}]
     /\ delivered' = [delivered EXCEPT ![d] = @ \cup {w}]
     /\ out' = <<[Rec(d, w, "spc", FALSE, FALSE, <<>>, <<>>) EXCEPT !.oldest = newOldest]>>
+    /\ quiet' = 0
     /\ UNCHANGED <<epRel, epDropped, inj, ackedWire, shown, pending, done>>
 
 \* Circuit.send of a proxy-originated message (packet_id None)
@@ -176,6 +181,7 @@ Inject(d, rel) ==
     /\ delivered' = [delivered EXCEPT ![d] = @ \cup {new}]
     /\ pending' = IF rel THEN pending \cup {[d |-> d, w |-> new, tries |-> Tries, age |-> 0]} ELSE pending
     /\ out' = <<Rec(d, new, "msg", rel, FALSE, <<>>, <<>>)>>
+    /\ quiet' = 0
     /\ UNCHANGED <<epSent, epRel, epDropped, fwdMap, ackedWire, shown, done>>
 
 Key(p) == p.w * 2 + (IF p.d = "OUT" THEN 0 ELSE 1)
@@ -191,7 +197,8 @@ Tick(dt) ==
         giveUp == {p \in due : p.tries = 1}
         again == due \ giveUp
     IN
-    /\ pending # {}
+    /\ (pending # {} \/ quiet < Interval)      \* otherwise nothing can change any more
+    /\ quiet' = IF again # {} THEN 0 ELSE Cap(quiet + dt)
     /\ pending' = (aged \ due) \cup {[p EXCEPT !.age = 0, !.tries = @ - 1] : p \in again}
     /\ done' = done \cup {[d |-> p.d, w |-> p.w, how |-> "failed"] : p \in giveUp}
     /\ out' = ResendRecs(again)
